@@ -19,6 +19,7 @@ VARIANTS = {
     "plain": ("gcc", ["-O2", "-DWRAP_ALLOC", "-Wl,--wrap=malloc,--wrap=calloc,--wrap=realloc,--wrap=free"]),
     "plain_nocpu": ("gcc", ["-O2", "-DWUFFS_CONFIG__AVOID_CPU_ARCH", "-DWRAP_ALLOC", "-Wl,--wrap=malloc,--wrap=calloc,--wrap=realloc,--wrap=free"]),
     "o0": ("gcc", ["-O0"]),
+    "tsan": ("gcc", ["-O1", "-g", "-fsanitize=thread"]),
     "clang_asan": ("clang", ["-O1", "-g", "-fsanitize=address,undefined", "-fno-sanitize=nonnull-attribute", "-fno-sanitize-recover=all"]),
 }
 
@@ -61,7 +62,7 @@ def compile_driver(ctx, root, src, variant, out=None, extra=(), timeout=900):
         shutil.copy(os.path.join(root, "release", "c", "wuffs-unsupported-snapshot.c"), link)
     outp = os.path.join(ctx.subdir("bin"), out or (os.path.splitext(os.path.basename(src))[0] + "-" + variant))
     srcp = src if os.path.isabs(src) else os.path.join(VERIF, "harness", "c", src)
-    cmd = [cc] + flags + list(extra) + ["-I", incdir, "-o", outp, srcp]
+    cmd = [cc] + flags + ["-pthread"] + list(extra) + ["-I", incdir, "-o", outp, srcp]
     r = subprocess.run(cmd, capture_output=True, text=True, timeout=timeout)
     if r.returncode != 0:
         return None, (r.stdout + r.stderr)
